@@ -74,6 +74,12 @@ fn mutants(s: &str) -> Vec<String> {
     }
     out.push(format!("{}a", s));
     out.push(format!("a{}", s));
+    // the text as one *line* of a longer path (anchors must be text anchors, not line anchors)
+    out.push(format!("{}\n", s));
+    out.push(format!("\n{}", s));
+    out.push(format!("x\n{}", s));
+    out.push(format!("{}\ny", s));
+    out.push(format!("x/y\n{}\nz", s));
     out.push(format!("{}/", s));
     out.push(format!("/{}", s));
     out.push(format!("{}\\", s));
